@@ -641,6 +641,8 @@ func (m *interp) callFn(name string, args []mval) (mval, bool, error) {
 	case "noret":
 		m.fnLog = append(m.fnLog, "noret()")
 		return mval{}, false, nil
+	case "clamp":
+		return numVal(0), true, nil
 	case "eoferr":
 		// a host function that fails with an error wrapping io.EOF: an error like any other
 		m.sawBoom = true
